@@ -2075,6 +2075,11 @@ class RedunBackendDb(RedunBackend):
                 # without its Task or File row, so make sure that row exists as well.
                 if isinstance(value, (BaseFile, BaseTask)):
                     self._record_special_redun_values([value], [value_hash])
+                else:
+                    # Likewise for its subvalues, which are committed after the Value itself.
+                    subvalues = list(value_interface.iter_subvalues())
+                    if subvalues:
+                        self._record_subvalues(subvalues, value_hash)
                 return value_hash
 
             type_name = self.type_registry.get_type_name(type(value))
